@@ -49,6 +49,7 @@ type op struct {
 	Out   int    `json:",omitempty"` // 0 Ok 1 ErrNotApplied 2 ErrApplied
 	M     int    `json:",omitempty"`
 	H     string `json:",omitempty"`
+	Cfg   string   `json:",omitempty"` // putcfg: body class "right" (id, max 5) "right9" (id, max 9) "zero" (id 0, max 7) "unset" (all default) "nil" (no body) "wrong" (id+1)
 	HS    []string `json:",omitempty"` // stream: the header class of each message on the one stream
 }
 
@@ -165,6 +166,11 @@ func (o op) coq() string {
 		return fmt.Sprintf("OMemBegin %d", o.M)
 	case "memfinish":
 		return fmt.Sprintf("OMemFinish %d %s", o.M, outc[o.Out])
+	case "putcfg":
+		return "OPutConfig " + map[string]string{"right": "(Some (7%Z, 5%Z))", "right9": "(Some (7%Z, 9%Z))", "zero": "(Some (0%Z, 7%Z))",
+			"unset": "(Some (0%Z, 0%Z))", "nil": "None", "wrong": "(Some (8%Z, 4%Z))"}[o.Cfg]
+	case "getcfg":
+		return "OGetConfig"
 	case "stream":
 		hs := make([]string, len(o.HS))
 		for i, h := range o.HS {
@@ -389,6 +395,49 @@ func (w *world) exec(o op) string {
 		w.mctl[o.M].Release(emodes[o.Out])
 		w.mpark[o.M] = false
 		return w.memObs(<-w.mdone[o.M])
+	case "putcfg":
+		id := w.x.S.ClusterID()
+		var body *metapb.Cluster
+		switch o.Cfg {
+		case "right":
+			body = &metapb.Cluster{Id: id, MaxPeerCount: 5}
+		case "right9":
+			body = &metapb.Cluster{Id: id, MaxPeerCount: 9}
+		case "zero":
+			body = &metapb.Cluster{Id: 0, MaxPeerCount: 7}
+		case "unset":
+			body = &metapb.Cluster{}
+		case "wrong":
+			body = &metapb.Cluster{Id: id + 1, MaxPeerCount: 4}
+		}
+		ob := func() (ob string) {
+			defer func() {
+				if r := recover(); r != nil {
+					w.R.Violate("C20:put-cluster-config-panics", fmt.Sprintf("PutClusterConfig with body class %q panicked: %v", o.Cfg, r), o)
+					ob = "BBad (* panic *)"
+				}
+			}()
+			r, err := w.x.S.PutClusterConfig(w.ctx, &pdpb.PutClusterConfigRequest{Header: w.header(""), Cluster: body})
+			switch {
+			case err != nil && (strings.Contains(err.Error(), "not leader") || strings.Contains(err.Error(), "not started")):
+				return "BBad (* " + err.Error() + " *)"
+			case err != nil:
+				return "BInvalidCfg"
+			case r.GetHeader().GetError() != nil:
+				return "BNotBoot"
+			}
+			return "BUnit"
+		}()
+		return ob
+	case "getcfg":
+		r, err := w.x.S.GetClusterConfig(w.ctx, &pdpb.GetClusterConfigRequest{Header: w.header("")})
+		if err != nil {
+			return "BBad (* " + strings.ReplaceAll(err.Error(), "*)", "") + " *)"
+		}
+		if r.GetHeader().GetError() != nil {
+			return "BNotBoot"
+		}
+		return fmt.Sprintf("BCfg %s %s", coqfmt.Bool(r.GetCluster().GetId() == w.x.S.ClusterID()), coqfmt.Z(int64(r.GetCluster().GetMaxPeerCount())))
 	case "stream":
 		return w.stream(o.H, o.HS)
 	case "wrong", "call":
@@ -880,7 +929,14 @@ func (w *world) genCase(r *rng.R, kind int, maxOps int) caseRec {
 				w.step(&c, op{K: "stop"})
 				return true
 			default:
-				if r.Pct(35) {
+				if r.Pct(30) {
+					// the other writer of the cluster record
+					if r.Pct(60) {
+						w.step(&c, op{K: "putcfg", Cfg: []string{"right", "right9", "zero", "unset", "nil", "wrong"}[r.Intn(6)]})
+					} else {
+						w.step(&c, op{K: "getcfg"})
+					}
+				} else if r.Pct(35) {
 					// one stream, several messages, the header class changing between them
 					o := op{K: "stream", H: streamHandlers[r.Intn(3)]}
 					for k := 1 + r.Intn(4); k > 0; k-- {
@@ -984,6 +1040,11 @@ func directed(handlers []string) [][]op {
 		wr = append(wr, op{K: "boot", T: 2, PK: "valid", Hdr: c})
 	}
 	all = append(all, wr)
+	// the other writer of the cluster record: PutClusterConfig with every body class, before bootstrap and after, read back,
+	// across a reload; then a late Bootstrap
+	all = append(all, []op{{K: "putcfg", Cfg: "right"}, {K: "getcfg"}, {K: "boot", T: 0, PK: "valid"}, {K: "getcfg"}, {K: "putcfg", Cfg: "right"}, {K: "getcfg"},
+		{K: "putcfg", Cfg: "zero"}, {K: "getcfg"}, {K: "putcfg", Cfg: "unset"}, {K: "getcfg"}, {K: "reload"}, {K: "isboot"}, {K: "getcfg"}, {K: "putcfg", Cfg: "nil"},
+		{K: "putcfg", Cfg: "wrong"}, {K: "putcfg", Cfg: "right9"}, {K: "reload"}, {K: "getcfg"}, {K: "isboot"}, {K: "boot", T: 1, PK: "valid"}})
 	// stream histories: the header class changes between the messages of ONE stream
 	var sh []op
 	hist := [][]string{{"", "", "wrong"}, {"", "nil"}, {"", "zero", ""}, {"nil"}, {"wrong", ""}, {"", "", "", "nil", ""}, {"", ""}}
@@ -1135,6 +1196,9 @@ func main() {
 			if o.K == "boot" || o.K == "begin" {
 				R.Count("payload:" + o.PK)
 				R.Count("boot-header:" + map[string]string{"": "right", "nil": "none", "zero": "id-0", "wrong": "other-id"}[o.hdr()])
+			}
+			if o.K == "putcfg" {
+				R.Count("putcfg-body:" + o.Cfg)
 			}
 			if o.K == "stream" {
 				for _, h := range o.HS {
